@@ -30,12 +30,14 @@ package gonum
 //@ valid incX != 0 && n >= 0 && (incX < 0 || vec(x, n, incX))
 //@ panics iff !valid, before-writes
 //@ writes nothing
+//@ reads x[k*incX] for k in 0..n if incX > 0
 
 //@ func Implementation.Idamax Implementation.Isamax props: C01(frame) C07(safety)
 //@ requires !(n < 0 && incX < 0)
 //@ valid incX != 0 && n >= 0 && (incX < 0 || vec(x, n, incX))
 //@ panics iff !valid, before-writes
 //@ writes nothing
+//@ reads x[k*incX] for k in 0..n if incX > 0
 //@ ensures incX < 0 || n == 0 ==> result == -1
 //@ ensures incX > 0 && n > 0 ==> 0 <= result && result < n
 
@@ -43,12 +45,14 @@ package gonum
 //@ valid incX != 0 && incY != 0 && n >= 0 && vec(x, n, incX) && vec(y, n, incY)
 //@ panics iff !valid, before-writes
 //@ writes x[start(n,incX)+k*incX] for k in 0..n ; y[start(n,incY)+k*incY] for k in 0..n
+//@ reads nothing
 //@ ensures disjoint(x, y) ==> forall(k, 0, n, same(x[start(n,incX)+k*incX], old(y[start(n,incY)+k*incY])) && same(y[start(n,incY)+k*incY], old(x[start(n,incX)+k*incX])))
 
 //@ func Implementation.Drot Implementation.Srot Implementation.Drotm Implementation.Srotm props: C01(frame) C07(safety)
 //@ valid incX != 0 && incY != 0 && n >= 0 && vec(x, n, incX) && vec(y, n, incY)
 //@ panics iff !valid, before-writes
 //@ writes x[start(n,incX)+k*incX] for k in 0..n ; y[start(n,incY)+k*incY] for k in 0..n
+//@ reads nothing
 
 // Exact element-wise values (no summation is involved, so the BLAS definition
 // leaves no freedom): stated for operands that do not share storage.
@@ -57,12 +61,14 @@ package gonum
 //@ valid incX != 0 && incY != 0 && n >= 0 && vec(x, n, incX) && vec(y, n, incY)
 //@ panics iff !valid, before-writes
 //@ writes y[start(n,incY)+k*incY] for k in 0..n
+//@ reads x[start(n,incX)+k*incX] for k in 0..n
 //@ ensures disjoint(x, y) ==> forall(k, 0, n, same(y[start(n,incY)+k*incY], old(x[start(n,incX)+k*incX])))
 
 //@ func Implementation.Daxpy Implementation.Saxpy props: C01 C07(safety)
 //@ valid incX != 0 && incY != 0 && n >= 0 && vec(x, n, incX) && vec(y, n, incY)
 //@ panics iff !valid, before-writes
 //@ writes y[start(n,incY)+k*incY] for k in 0..n
+//@ reads x[start(n,incX)+k*incX] for k in 0..n
 //@ ensures disjoint(x, y) && alpha != 0 ==> forall(k, 0, n, same(y[start(n,incY)+k*incY], old(y[start(n,incY)+k*incY]) + alpha*old(x[start(n,incX)+k*incX])))
 //@ ensures alpha == 0 ==> forall(k, 0, n, same(y[start(n,incY)+k*incY], old(y[start(n,incY)+k*incY])))
 
@@ -70,6 +76,7 @@ package gonum
 //@ valid incX != 0 && incY != 0 && n >= 0 && vec(x, n, incX) && vec(y, n, incY)
 //@ panics iff !valid, before-writes
 //@ writes nothing
+//@ reads x[start(n,incX)+k*incX] for k in 0..n ; y[start(n,incY)+k*incY] for k in 0..n
 
 // Ddot: in exact arithmetic the result is the defining sum over the addressed elements.
 //@ func Implementation.Ddot props: C01 C07(safety)
@@ -107,6 +114,7 @@ package gonum
 //@       (m == 0 || n == 0 || (vec(x, m, incX) && vec(y, n, incY) && ge(a, m, n, lda)))
 //@ panics iff !valid, before-writes
 //@ writes a[i*lda+j] for i in 0..m, j in 0..n
+//@ reads x[start(m,incX)+k*incX] for k in 0..m ; y[start(n,incY)+k*incY] for k in 0..n
 
 //@ func Implementation.Sgemv props: C01(frame) C07(safety)
 //@ let lenX = ite(tA == blas.NoTrans, n, m)
@@ -145,30 +153,35 @@ package gonum
 //@       (n == 0 || (ge(a, n, n, lda) && vec(x, n, incX)))
 //@ panics iff !valid, before-writes
 //@ writes x[start(n,incX)+k*incX] for k in 0..n
+//@ reads a[i*lda+j] for i in 0..n, j in 0..n if ((ul == blas.Upper && j >= i) || (ul == blas.Lower && j <= i)) && (d != blas.Unit || i != j)
 
 //@ func Implementation.Dtbmv Implementation.Stbmv Implementation.Dtbsv Implementation.Stbsv props: C01(frame) C07(safety)
 //@ valid flagUL(ul) && flagT(tA) && flagD(d) && n >= 0 && k >= 0 && lda >= k+1 && incX != 0 &&
 //@       (n == 0 || (len(a) >= lda*(n-1)+k+1 && vec(x, n, incX)))
 //@ panics iff !valid, before-writes
 //@ writes x[start(n,incX)+j*incX] for j in 0..n
+//@ reads a[i*lda+j] for i in 0..n, j in 0..k+1 if ((ul == blas.Upper && i+j < n) || (ul == blas.Lower && i+j-k >= 0)) && (d != blas.Unit || (ul == blas.Upper && j != 0) || (ul == blas.Lower && j != k))
 
 //@ func Implementation.Dtpmv Implementation.Stpmv Implementation.Dtpsv Implementation.Stpsv props: C01(frame) C07(safety)
 //@ valid flagUL(ul) && flagT(tA) && flagD(d) && n >= 0 && incX != 0 &&
 //@       (n == 0 || (len(ap) >= n*(n+1)/2 && vec(x, n, incX)))
 //@ panics iff !valid, before-writes
 //@ writes x[start(n,incX)+k*incX] for k in 0..n
+//@ reads ap[k] for k in 0..n*(n+1)/2
 
 //@ func Implementation.Dsymv Implementation.Ssymv props: C01(frame) C07(safety)
 //@ valid flagUL(ul) && n >= 0 && lda >= max(1, n) && incX != 0 && incY != 0 &&
 //@       (n == 0 || (ge(a, n, n, lda) && vec(x, n, incX) && vec(y, n, incY)))
 //@ panics iff !valid, before-writes
 //@ writes y[start(n,incY)+k*incY] for k in 0..n
+//@ reads a[i*lda+j] for i in 0..n, j in 0..n if (ul == blas.Upper && j >= i) || (ul == blas.Lower && j <= i) ; x[start(n,incX)+k*incX] for k in 0..n
 
 //@ func Implementation.Dsbmv Implementation.Ssbmv props: C01(frame) C07(safety)
 //@ valid flagUL(ul) && n >= 0 && k >= 0 && lda >= k+1 && incX != 0 && incY != 0 &&
 //@       (n == 0 || (len(a) >= lda*(n-1)+k+1 && vec(x, n, incX) && vec(y, n, incY)))
 //@ panics iff !valid, before-writes
 //@ writes y[start(n,incY)+j*incY] for j in 0..n
+//@ reads a[i*lda+j] for i in 0..n, j in 0..k+1 if (ul == blas.Upper && i+j < n) || (ul == blas.Lower && i+j-k >= 0) ; x[start(n,incX)+j*incX] for j in 0..n
 //@ witness i-k+j
 
 //@ func Implementation.Dspmv Implementation.Sspmv props: C01(frame) C07(safety)
@@ -176,30 +189,35 @@ package gonum
 //@       (n == 0 || (len(ap) >= n*(n+1)/2 && vec(x, n, incX) && vec(y, n, incY)))
 //@ panics iff !valid, before-writes
 //@ writes y[start(n,incY)+k*incY] for k in 0..n
+//@ reads ap[k] for k in 0..n*(n+1)/2 ; x[start(n,incX)+k*incX] for k in 0..n
 
 //@ func Implementation.Dsyr Implementation.Ssyr props: C01(frame) C07(safety)
 //@ valid flagUL(ul) && n >= 0 && lda >= max(1, n) && incX != 0 &&
 //@       (n == 0 || (vec(x, n, incX) && ge(a, n, n, lda)))
 //@ panics iff !valid, before-writes
 //@ writes a[i*lda+j] for i in 0..n, j in 0..n if (ul == blas.Upper && j >= i) || (ul == blas.Lower && j <= i)
+//@ reads x[start(n,incX)+k*incX] for k in 0..n
 
 //@ func Implementation.Dsyr2 Implementation.Ssyr2 props: C01(frame) C07(safety)
 //@ valid flagUL(ul) && n >= 0 && lda >= max(1, n) && incX != 0 && incY != 0 &&
 //@       (n == 0 || (vec(x, n, incX) && vec(y, n, incY) && ge(a, n, n, lda)))
 //@ panics iff !valid, before-writes
 //@ writes a[i*lda+j] for i in 0..n, j in 0..n if (ul == blas.Upper && j >= i) || (ul == blas.Lower && j <= i)
+//@ reads x[start(n,incX)+k*incX] for k in 0..n ; y[start(n,incY)+k*incY] for k in 0..n
 
 //@ func Implementation.Dspr Implementation.Sspr props: C01(frame) C07(safety)
 //@ valid flagUL(ul) && n >= 0 && incX != 0 &&
 //@       (n == 0 || (vec(x, n, incX) && len(ap) >= n*(n+1)/2))
 //@ panics iff !valid, before-writes
 //@ writes ap[k] for k in 0..n*(n+1)/2
+//@ reads x[start(n,incX)+k*incX] for k in 0..n
 
 //@ func Implementation.Dspr2 Implementation.Sspr2 props: C01(frame) C07(safety)
 //@ valid flagUL(ul) && n >= 0 && incX != 0 && incY != 0 &&
 //@       (n == 0 || (vec(x, n, incX) && vec(y, n, incY) && len(ap) >= n*(n+1)/2))
 //@ panics iff !valid, before-writes
 //@ writes ap[k] for k in 0..n*(n+1)/2
+//@ reads x[start(n,incX)+k*incX] for k in 0..n ; y[start(n,incY)+k*incY] for k in 0..n
 
 // ---- Level 3 ------------------------------------------------------------------
 
@@ -224,6 +242,7 @@ package gonum
 //@ requires m >= 0 && n >= 0 && k >= 0 && lda >= max(1, colA) && ldb >= max(1, colB) && ldc >= max(1, n)
 //@ requires ge(a, rowA, colA, lda) && ge(b, rowB, colB, ldb) && ge(c, m, n, ldc) && (m == 0 || n > 0)
 //@ writes c[i*ldc+j] for i in 0..m, j in 0..n
+//@ reads a[i*lda+j] for i in 0..rowA, j in 0..colA ; b[i*ldb+j] for i in 0..rowB, j in 0..colB
 
 // The parallel path (C09, gemm clause): every goroutine is started for a block
 // origin (i, j) on the blockSize grid, writes only cells of its own block of c
@@ -256,21 +275,25 @@ package gonum
 //@ requires m >= 0 && n >= 0 && k >= 0 && lda >= max(1, k) && ldb >= max(1, n) && ldc >= max(1, n)
 //@ requires ge(a, m, k, lda) && ge(b, k, n, ldb) && ge(c, m, n, ldc)
 //@ writes c[i*ldc+j] for i in 0..m, j in 0..n
+//@ reads a[i*lda+j] for i in 0..m, j in 0..k ; b[i*ldb+j] for i in 0..k, j in 0..n
 
 //@ func dgemmSerialTransNot sgemmSerialTransNot props: C01(frame) C07(safety)
 //@ requires m >= 0 && n >= 0 && k >= 0 && lda >= max(1, m) && ldb >= max(1, n) && ldc >= max(1, n)
 //@ requires ge(a, k, m, lda) && ge(b, k, n, ldb) && ge(c, m, n, ldc)
 //@ writes c[i*ldc+j] for i in 0..m, j in 0..n
+//@ reads a[i*lda+j] for i in 0..k, j in 0..m ; b[i*ldb+j] for i in 0..k, j in 0..n
 
 //@ func dgemmSerialNotTrans sgemmSerialNotTrans props: C01(frame) C07(safety)
 //@ requires m >= 0 && n >= 0 && k >= 0 && lda >= max(1, k) && ldb >= max(1, k) && ldc >= max(1, n)
 //@ requires ge(a, m, k, lda) && ge(b, n, k, ldb) && ge(c, m, n, ldc)
 //@ writes c[i*ldc+j] for i in 0..m, j in 0..n
+//@ reads a[i*lda+j] for i in 0..m, j in 0..k ; b[i*ldb+j] for i in 0..n, j in 0..k
 
 //@ func dgemmSerialTransTrans sgemmSerialTransTrans props: C01(frame) C07(safety)
 //@ requires m >= 0 && n >= 0 && k >= 0 && lda >= max(1, m) && ldb >= max(1, k) && ldc >= max(1, n)
 //@ requires ge(a, k, m, lda) && ge(b, n, k, ldb) && ge(c, m, n, ldc) && (m == 0 || n > 0)
 //@ writes c[i*ldc+j] for i in 0..m, j in 0..n
+//@ reads a[i*lda+j] for i in 0..k, j in 0..m ; b[i*ldb+j] for i in 0..n, j in 0..k
 
 //@ func Implementation.Dtrsm Implementation.Strsm Implementation.Dtrmm Implementation.Strmm props: C01(frame) C07(safety)
 //@ let ka = ite(s == blas.Left, m, n)
@@ -279,6 +302,7 @@ package gonum
 //@       (m == 0 || n == 0 || (ge(a, ka, ka, lda) && ge(b, m, n, ldb)))
 //@ panics iff !valid, before-writes
 //@ writes b[i*ldb+j] for i in 0..m, j in 0..n
+//@ reads a[i*lda+j] for i in 0..ka, j in 0..ka if ((ul == blas.Upper && j >= i) || (ul == blas.Lower && j <= i)) && (d != blas.Unit || i != j)
 
 //@ func Implementation.Dsymm Implementation.Ssymm props: C01(frame) C07(safety)
 //@ let ka = ite(s == blas.Left, m, n)
@@ -287,6 +311,7 @@ package gonum
 //@       (m == 0 || n == 0 || (ge(a, ka, ka, lda) && ge(b, m, n, ldb) && ge(c, m, n, ldc)))
 //@ panics iff !valid, before-writes
 //@ writes c[i*ldc+j] for i in 0..m, j in 0..n
+//@ reads a[i*lda+j] for i in 0..ka, j in 0..ka if (ul == blas.Upper && j >= i) || (ul == blas.Lower && j <= i) ; b[i*ldb+j] for i in 0..m, j in 0..n
 
 //@ func Implementation.Dsyrk Implementation.Ssyrk props: C01(frame) C07(safety)
 //@ let row = ite(tA == blas.NoTrans, n, k)
@@ -295,6 +320,7 @@ package gonum
 //@       (n == 0 || (ge(a, row, col, lda) && ge(c, n, n, ldc)))
 //@ panics iff !valid, before-writes
 //@ writes c[i*ldc+j] for i in 0..n, j in 0..n if (ul == blas.Upper && j >= i) || (ul == blas.Lower && j <= i)
+//@ reads a[i*lda+j] for i in 0..row, j in 0..col
 
 //@ func Implementation.Dsyr2k Implementation.Ssyr2k props: C01(frame) C07(safety)
 //@ let row = ite(tA == blas.NoTrans, n, k)
@@ -303,6 +329,7 @@ package gonum
 //@       (n == 0 || (ge(a, row, col, lda) && ge(b, row, col, ldb) && ge(c, n, n, ldc)))
 //@ panics iff !valid, before-writes
 //@ writes c[i*ldc+j] for i in 0..n, j in 0..n if (ul == blas.Upper && j >= i) || (ul == blas.Lower && j <= i)
+//@ reads a[i*lda+j] for i in 0..row, j in 0..col ; b[i*ldb+j] for i in 0..row, j in 0..col
 
 // ---- complex routines (complex128 and complex64 twins) -------------------------
 
@@ -314,12 +341,14 @@ package gonum
 //@ valid incX != 0 && n >= 0 && (incX < 0 || vec(x, n, incX))
 //@ panics iff !valid, before-writes
 //@ writes nothing
+//@ reads x[k*incX] for k in 0..n if incX > 0
 
 //@ func Implementation.Izamax Implementation.Icamax props: C01(frame) C07(safety)
 //@ requires !(n < 0 && incX < 0)
 //@ valid incX != 0 && n >= 0 && (incX < 0 || vec(x, n, incX))
 //@ panics iff !valid, before-writes
 //@ writes nothing
+//@ reads x[k*incX] for k in 0..n if incX > 0
 //@ ensures incX < 0 || n == 0 ==> result == -1
 //@ ensures incX > 0 && n > 0 ==> 0 <= result && result < n
 
@@ -327,22 +356,26 @@ package gonum
 //@ valid incX != 0 && incY != 0 && n >= 0 && vec(x, n, incX) && vec(y, n, incY)
 //@ panics iff !valid, before-writes
 //@ writes y[start(n,incY)+k*incY] for k in 0..n
+//@ reads x[start(n,incX)+k*incX] for k in 0..n
 
 //@ func Implementation.Zdotc Implementation.Cdotc Implementation.Zdotu Implementation.Cdotu props: C01(frame) C07(safety)
 //@ valid incX != 0 && incY != 0 && n >= 0 && vec(x, n, incX) && vec(y, n, incY)
 //@ panics iff !valid, before-writes
 //@ writes nothing
+//@ reads x[start(n,incX)+k*incX] for k in 0..n ; y[start(n,incY)+k*incY] for k in 0..n
 
 //@ func Implementation.Zdscal Implementation.Csscal Implementation.Zscal Implementation.Cscal props: C01(frame) C07(safety)
 //@ requires !(n < 0 && incX < 0)
 //@ valid incX != 0 && n >= 0 && (incX < 0 || vec(x, n, incX))
 //@ panics iff !valid, before-writes
 //@ writes x[k*incX] for k in 0..n if incX > 0
+//@ reads nothing
 
 //@ func Implementation.Zswap Implementation.Cswap props: C01(frame) C07(safety)
 //@ valid incX != 0 && incY != 0 && n >= 0 && vec(x, n, incX) && vec(y, n, incY)
 //@ panics iff !valid, before-writes
 //@ writes x[start(n,incX)+k*incX] for k in 0..n ; y[start(n,incY)+k*incY] for k in 0..n
+//@ reads nothing
 
 //@ func Implementation.Zgbmv Implementation.Cgbmv props: C01(frame) C07(safety)
 //@ let lenX = ite(trans == blas.NoTrans, n, m)
@@ -351,6 +384,7 @@ package gonum
 //@       (m == 0 || n == 0 || (len(a) >= lda*(min(m, n+kL)-1)+kL+kU+1 && vec(x, lenX, incX) && vec(y, lenY, incY)))
 //@ panics iff !valid, before-writes
 //@ writes y[start(lenY,incY)+k*incY] for k in 0..lenY
+//@ reads a[i*lda+j] for i in 0..min(m, n+kL), j in 0..kL+kU+1 if 0 <= i+j-kL && i+j-kL < n ; x[start(lenX,incX)+k*incX] for k in 0..lenX
 
 //@ func Implementation.Zgemv Implementation.Cgemv props: C01(frame) C07(safety)
 //@ let lenX = ite(trans == blas.NoTrans, n, m)
@@ -359,18 +393,21 @@ package gonum
 //@       (m == 0 || n == 0 || (ge(a, m, n, lda) && vec(x, lenX, incX) && vec(y, lenY, incY)))
 //@ panics iff !valid, before-writes
 //@ writes y[start(lenY,incY)+k*incY] for k in 0..lenY
+//@ reads a[i*lda+j] for i in 0..m, j in 0..n ; x[start(lenX,incX)+k*incX] for k in 0..lenX
 
 //@ func Implementation.Zgerc Implementation.Cgerc Implementation.Zgeru Implementation.Cgeru props: C01(frame) C07(safety)
 //@ valid m >= 0 && n >= 0 && lda >= max(1, n) && incX != 0 && incY != 0 &&
 //@       (m == 0 || n == 0 || (vec(x, m, incX) && vec(y, n, incY) && ge(a, m, n, lda)))
 //@ panics iff !valid, before-writes
 //@ writes a[i*lda+j] for i in 0..m, j in 0..n
+//@ reads x[start(m,incX)+k*incX] for k in 0..m ; y[start(n,incY)+k*incY] for k in 0..n
 
 //@ func Implementation.Zhbmv Implementation.Chbmv props: C01(frame) C07(safety)
 //@ valid flagUL(uplo) && n >= 0 && k >= 0 && lda >= k+1 && incX != 0 && incY != 0 &&
 //@       (n == 0 || (len(a) >= lda*(n-1)+k+1 && vec(x, n, incX) && vec(y, n, incY)))
 //@ panics iff !valid, before-writes
 //@ writes y[start(n,incY)+j*incY] for j in 0..n
+//@ reads a[i*lda+j] for i in 0..n, j in 0..k+1 if (uplo == blas.Upper && i+j < n) || (uplo == blas.Lower && i+j-k >= 0) ; x[start(n,incX)+j*incX] for j in 0..n
 //@ witness i-k+j
 
 //@ func Implementation.Zhemv Implementation.Chemv props: C01(frame) C07(safety)
@@ -378,42 +415,49 @@ package gonum
 //@       (n == 0 || (ge(a, n, n, lda) && vec(x, n, incX) && vec(y, n, incY)))
 //@ panics iff !valid, before-writes
 //@ writes y[start(n,incY)+k*incY] for k in 0..n
+//@ reads a[i*lda+j] for i in 0..n, j in 0..n if (uplo == blas.Upper && j >= i) || (uplo == blas.Lower && j <= i) ; x[start(n,incX)+k*incX] for k in 0..n
 
 //@ func Implementation.Zher Implementation.Cher props: C01(frame) C07(safety)
 //@ valid flagUL(uplo) && n >= 0 && lda >= max(1, n) && incX != 0 &&
 //@       (n == 0 || (vec(x, n, incX) && ge(a, n, n, lda)))
 //@ panics iff !valid, before-writes
 //@ writes a[i*lda+j] for i in 0..n, j in 0..n if (uplo == blas.Upper && j >= i) || (uplo == blas.Lower && j <= i)
+//@ reads x[start(n,incX)+k*incX] for k in 0..n
 
 //@ func Implementation.Zher2 Implementation.Cher2 props: C01(frame) C07(safety)
 //@ valid flagUL(uplo) && n >= 0 && lda >= max(1, n) && incX != 0 && incY != 0 &&
 //@       (n == 0 || (vec(x, n, incX) && vec(y, n, incY) && ge(a, n, n, lda)))
 //@ panics iff !valid, before-writes
 //@ writes a[i*lda+j] for i in 0..n, j in 0..n if (uplo == blas.Upper && j >= i) || (uplo == blas.Lower && j <= i)
+//@ reads x[start(n,incX)+k*incX] for k in 0..n ; y[start(n,incY)+k*incY] for k in 0..n
 
 //@ func Implementation.Zhpmv Implementation.Chpmv props: C01(frame) C07(safety)
 //@ valid flagUL(uplo) && n >= 0 && incX != 0 && incY != 0 &&
 //@       (n == 0 || (len(ap) >= n*(n+1)/2 && vec(x, n, incX) && vec(y, n, incY)))
 //@ panics iff !valid, before-writes
 //@ writes y[start(n,incY)+k*incY] for k in 0..n
+//@ reads ap[k] for k in 0..n*(n+1)/2 ; x[start(n,incX)+k*incX] for k in 0..n
 
 //@ func Implementation.Zhpr Implementation.Chpr props: C01(frame) C07(safety)
 //@ valid flagUL(uplo) && n >= 0 && incX != 0 &&
 //@       (n == 0 || (vec(x, n, incX) && len(ap) >= n*(n+1)/2))
 //@ panics iff !valid, before-writes
 //@ writes ap[k] for k in 0..n*(n+1)/2
+//@ reads x[start(n,incX)+k*incX] for k in 0..n
 
 //@ func Implementation.Zhpr2 Implementation.Chpr2 props: C01(frame) C07(safety)
 //@ valid flagUL(uplo) && n >= 0 && incX != 0 && incY != 0 &&
 //@       (n == 0 || (vec(x, n, incX) && vec(y, n, incY) && len(ap) >= n*(n+1)/2))
 //@ panics iff !valid, before-writes
 //@ writes ap[k] for k in 0..n*(n+1)/2
+//@ reads x[start(n,incX)+k*incX] for k in 0..n ; y[start(n,incY)+k*incY] for k in 0..n
 
 //@ func Implementation.Ztbmv Implementation.Ctbmv Implementation.Ztbsv Implementation.Ctbsv props: C01(frame) C07(safety)
 //@ valid flagUL(uplo) && flagT(trans) && flagD(diag) && n >= 0 && k >= 0 && lda >= k+1 && incX != 0 &&
 //@       (n == 0 || (len(a) >= lda*(n-1)+k+1 && vec(x, n, incX)))
 //@ panics iff !valid, before-writes
 //@ writes x[start(n,incX)+j*incX] for j in 0..n
+//@ reads a[i*lda+j] for i in 0..n, j in 0..k+1 if ((uplo == blas.Upper && i+j < n) || (uplo == blas.Lower && i+j-k >= 0)) && (diag != blas.Unit || (uplo == blas.Upper && j != 0) || (uplo == blas.Lower && j != k))
 //@ witness i-kk+it
 
 //@ func Implementation.Ztpmv Implementation.Ctpmv Implementation.Ztpsv Implementation.Ctpsv props: C01(frame) C07(safety)
@@ -421,12 +465,17 @@ package gonum
 //@       (n == 0 || (len(ap) >= n*(n+1)/2 && vec(x, n, incX)))
 //@ panics iff !valid, before-writes
 //@ writes x[start(n,incX)+k*incX] for k in 0..n
+//@ reads ap[k] for k in 0..n*(n+1)/2
 
 //@ func Implementation.Ztrmv Implementation.Ctrmv Implementation.Ztrsv Implementation.Ctrsv props: C01(frame) C07(safety)
 //@ valid flagUL(uplo) && flagT(trans) && flagD(diag) && n >= 0 && lda >= max(1, n) && incX != 0 &&
 //@       (n == 0 || (ge(a, n, n, lda) && vec(x, n, incX)))
 //@ panics iff !valid, before-writes
 //@ writes x[start(n,incX)+k*incX] for k in 0..n
+// FINDING: Ztrsv/Ctrsv with uplo == Upper, trans == NoTrans load the diagonal cell a[i*lda+i] (aii := a[i*lda+i])
+// also when diag == Unit, where the reference ZTRSV does not reference the diagonal; the value is then unused.
+// The last disjunct below admits exactly that load; without it the clause is the reference read set.
+//@ reads a[i*lda+j] for i in 0..n, j in 0..n if ((uplo == blas.Upper && j >= i) || (uplo == blas.Lower && j <= i)) && (diag != blas.Unit || i != j || (uplo == blas.Upper && trans == blas.NoTrans))
 
 //@ func Implementation.Zgemm Implementation.Cgemm props: C01(frame) C07(safety)
 //@ let rowA = ite(tA != blas.NoTrans, k, m)
@@ -438,6 +487,7 @@ package gonum
 //@       (m == 0 || n == 0 || (ge(a, rowA, colA, lda) && ge(b, rowB, colB, ldb) && ge(c, m, n, ldc)))
 //@ panics iff !valid, before-writes
 //@ writes c[i*ldc+j] for i in 0..m, j in 0..n
+//@ reads a[i*lda+j] for i in 0..rowA, j in 0..colA ; b[i*ldb+j] for i in 0..rowB, j in 0..colB
 
 //@ func Implementation.Zhemm Implementation.Chemm Implementation.Zsymm Implementation.Csymm props: C01(frame) C07(safety)
 //@ let ka = ite(side == blas.Left, m, n)
@@ -446,6 +496,7 @@ package gonum
 //@       (m == 0 || n == 0 || (ge(a, ka, ka, lda) && ge(b, m, n, ldb) && ge(c, m, n, ldc)))
 //@ panics iff !valid, before-writes
 //@ writes c[i*ldc+j] for i in 0..m, j in 0..n
+//@ reads a[i*lda+j] for i in 0..ka, j in 0..ka if (uplo == blas.Upper && j >= i) || (uplo == blas.Lower && j <= i) ; b[i*ldb+j] for i in 0..m, j in 0..n
 
 //@ func Implementation.Zherk Implementation.Cherk props: C01(frame) C07(safety)
 //@ let row = ite(trans == blas.NoTrans, n, k)
@@ -454,6 +505,7 @@ package gonum
 //@       (n == 0 || (ge(a, row, col, lda) && ge(c, n, n, ldc)))
 //@ panics iff !valid, before-writes
 //@ writes c[i*ldc+j] for i in 0..n, j in 0..n if (uplo == blas.Upper && j >= i) || (uplo == blas.Lower && j <= i)
+//@ reads a[i*lda+j] for i in 0..row, j in 0..col
 
 //@ func Implementation.Zher2k Implementation.Cher2k props: C01(frame) C07(safety)
 //@ let row = ite(trans == blas.NoTrans, n, k)
@@ -462,6 +514,7 @@ package gonum
 //@       (n == 0 || (ge(a, row, col, lda) && ge(b, row, col, ldb) && ge(c, n, n, ldc)))
 //@ panics iff !valid, before-writes
 //@ writes c[i*ldc+j] for i in 0..n, j in 0..n if (uplo == blas.Upper && j >= i) || (uplo == blas.Lower && j <= i)
+//@ reads a[i*lda+j] for i in 0..row, j in 0..col ; b[i*ldb+j] for i in 0..row, j in 0..col
 
 //@ func Implementation.Zsyrk Implementation.Csyrk props: C01(frame) C07(safety)
 //@ let row = ite(trans == blas.NoTrans, n, k)
@@ -470,6 +523,7 @@ package gonum
 //@       (n == 0 || (ge(a, row, col, lda) && ge(c, n, n, ldc)))
 //@ panics iff !valid, before-writes
 //@ writes c[i*ldc+j] for i in 0..n, j in 0..n if (uplo == blas.Upper && j >= i) || (uplo == blas.Lower && j <= i)
+//@ reads a[i*lda+j] for i in 0..row, j in 0..col
 
 //@ func Implementation.Zsyr2k Implementation.Csyr2k props: C01(frame) C07(safety)
 //@ let row = ite(trans == blas.NoTrans, n, k)
@@ -478,6 +532,7 @@ package gonum
 //@       (n == 0 || (ge(a, row, col, lda) && ge(b, row, col, ldb) && ge(c, n, n, ldc)))
 //@ panics iff !valid, before-writes
 //@ writes c[i*ldc+j] for i in 0..n, j in 0..n if (uplo == blas.Upper && j >= i) || (uplo == blas.Lower && j <= i)
+//@ reads a[i*lda+j] for i in 0..row, j in 0..col ; b[i*ldb+j] for i in 0..row, j in 0..col
 
 //@ func Implementation.Ztrmm Implementation.Ctrmm props: C01(frame) C07(safety)
 //@ let ka = ite(side == blas.Left, m, n)
@@ -486,6 +541,7 @@ package gonum
 //@       (m == 0 || n == 0 || (ge(a, ka, ka, lda) && ge(b, m, n, ldb)))
 //@ panics iff !valid, before-writes
 //@ writes b[i*ldb+j] for i in 0..m, j in 0..n
+//@ reads a[i*lda+j] for i in 0..ka, j in 0..ka if ((uplo == blas.Upper && j >= i) || (uplo == blas.Lower && j <= i)) && (diag != blas.Unit || i != j)
 
 //@ func Implementation.Ztrsm Implementation.Ctrsm props: C01(frame) C07(safety)
 //@ let ka = ite(side == blas.Left, m, n)
@@ -494,3 +550,4 @@ package gonum
 //@       (m == 0 || n == 0 || (ge(a, ka, ka, lda) && ge(b, m, n, ldb)))
 //@ panics iff !valid, before-writes
 //@ writes b[i*ldb+j] for i in 0..m, j in 0..n
+//@ reads a[i*lda+j] for i in 0..ka, j in 0..ka if ((uplo == blas.Upper && j >= i) || (uplo == blas.Lower && j <= i)) && (diag != blas.Unit || i != j)
